@@ -843,7 +843,8 @@ class Polygon(Shape2D):
         self.centroid = np.array([0, 0, 0])
         data = self.to_json(["vertices", "centroid", "area", "inertia_tensor"])
         hoomd_dict = _map_dict_keys(data, key_mapping=_hoomd_dict_mapping)
-        hoomd_dict = {**hoomd_dict, **{"vertices": self.vertices[:, :2]}}
+        # Copy the centered vertices: the internal array is moved back below.
+        hoomd_dict = {**hoomd_dict, **{"vertices": self.vertices[:, :2].copy()}}
         hoomd_dict["sweep_radius"] = 0.0
 
         self.centroid = old_centroid
